@@ -704,7 +704,12 @@ async def drive_routes(tab, order, rows, feat_sets, feat_states, holders, only=N
         regd = [p for p, ifs in eff if iface in ifs]
         stub = {p: ifs[iface] for p, ifs in eff if iface in ifs}
         for h in holders:
-            tok = atv.takeover(P(h), base) if h else None
+            tok, tk_exc = None, None
+            if h:
+                try:
+                    tok = atv.takeover(P(h), base)
+                except Exception as ex:  # noqa  (an observation, judged below)
+                    tk_exc = type(ex).__name__
             take = holder_of(atv, iface)
             for n, row in enumerate(rows):
                 if row["iface"] != iface or (only and (iface, row["member"]) not in only):
@@ -721,7 +726,7 @@ async def drive_routes(tab, order, rows, feat_sets, feat_states, holders, only=N
                     called = [e[0] for e in log]
                     wrong = [e for e in log if e[1] != iface or e[2] != row["member"]]
                     out.append({"row": n, "iface": iface, "member": row["member"], "kwargs": show_kwargs(kw), "holder": h,
-                                "take": take, "gate": gate, "regd": regd, "called": called, "exc": exc, "wrong": wrong,
+                                "takeover_exception": tk_exc, "take": take, "gate": gate, "regd": regd, "called": called, "exc": exc, "wrong": wrong,
                                 "bits": {p: inst_bits(stub[p], row["member"]) for p in regd},
                                 "added": [(p, ok, inst_bits(ifs[iface], row["member"]) if iface in ifs else None)
                                           for p, ok, ifs in units],
@@ -945,6 +950,9 @@ async def _drive_history(ops, atv, log, cores):
             except exceptions.InvalidStateError:
                 toks.append(None)
                 res.append("RInvalidState")
+            except Exception as ex:  # noqa  (an observation: judged as a refusal)
+                toks.append(None)
+                res.append("RRaised_" + type(ex).__name__)
         else:
             t = toks[o[1]] if o[1] < len(toks) else None
             if t:
@@ -980,7 +988,7 @@ def judge_history(ops, res, probes, connected=None):
                     return ("C01:takeover:refused-although-free", n)
             else:
                 toks.append(None)
-                if res[n] != "RInvalidState":
+                if res[n] == "RTaken":
                     return ("C01:takeover:second-holder-accepted", n)
         else:
             k = o[1]
@@ -1029,6 +1037,7 @@ def coq_op(o):
 
 
 def coq_history(ops, res, final):
+    res = [r if not r.startswith("RRaised_") else "RInvalidState" for r in res]   # the model knows one kind of refusal
     return "([%s], [%s], [%s])" % ("; ".join(coq_op(o) for o in ops), "; ".join(res),
                                    "; ".join(coq_protos(x) for x in final))
 
@@ -1159,7 +1168,11 @@ def run(ctx):
                 ctx.traces += 1
                 row = rows[o["row"]]
                 impl = {p: (b[0] and b[1] and b[2]) for p, b in o["bits"].items()}
-                if o["wrong"]:
+                if o.get("takeover_exception"):
+                    ctx.violation("C01:takeover:refused-although-free",
+                                  "takeover of the free interface %s by %s raised %s" % (o["iface"], o["holder"], o["takeover_exception"]),
+                                  route_replay(tab, order, o, feat_sets, feat_states, conn))
+                elif o["wrong"]:
                     ctx.violation("C01:route:other-member-executed", "call of %s.%s executed %s" % (o["iface"], o["member"], o["wrong"]),
                                   route_replay(tab, order, o, feat_sets, feat_states, conn))
                 elif o["conforming"]:
@@ -1538,6 +1551,8 @@ async def replay_one(r, rows, verbose=True):
             if verbose:
                 print("%s.%s(%s) added=%s connect()=%s holder=%s -> executed_by=%s exception=%s" % (
                     o["iface"], o["member"], o["kwargs"], order, r.get("connect_results"), o["holder"], o["called"], o["exc"]))
+            if o.get("takeover_exception"):
+                return ("C01:takeover:refused-although-free", "takeover raised %s" % o["takeover_exception"])
             if o["wrong"]:
                 return ("C01:route:other-member-executed", str(o["wrong"]))
             v = judge_route(row, o["holder"], impl, o["gate"], o["regd"], o["called"], o["exc"])
